@@ -111,7 +111,9 @@ def dump_tree(root: Any, sources: list) -> list:
         k = ident.setdefault(id(n), len(ident))
         out.append({
             "path": path, "cls": type(n).__name__, "id": n.id, "cid": n.content_id, "props": _props_of(n),
-            "origin": og.origin_spec_of(n.origin, sources), "obj": k, "registered": ASTNode.get_any(n.id) is n,
+            "origin": og.origin_spec_of(n.origin, sources), "origin_fqn": n.origin.fqn,
+            "origin_source": [type(n.origin.source).__name__, n.origin.source.fqn],
+            "obj": k, "registered": ASTNode.get_any(n.id) is n, "clsobj": id(type(n)),
         })
         for c, fn, i in T.live_children(n):
             rec(c, f"{path}.{fn}[{i}]")
@@ -149,9 +151,11 @@ def check_tree(data: dict, lab: Labels) -> None:
     sources = og.make_sources()
     root_e, ex = T.expand(data["tree"])
     outside = None
+    fresh_src = bool(data.get("fresh_sources"))
+    lab.tag_if(fresh_src, "distinct-equal-source-objects")
     if data["outside"]:
-        outside = T.Built(root_e, sources)  # full outside copy first: members get _N suffixes
-    b = T.Built(root_e, sources)
+        outside = T.Built(root_e, sources, fresh_src)  # full outside copy first: members get _N suffixes
+    b = T.Built(root_e, sources, fresh_src)
     root = b.root
     snap = dump_tree(root, sources)
     suffixed = any("_" in p["id"] for p in snap)
@@ -244,6 +248,7 @@ def check_tree(data: dict, lab: Labels) -> None:
     forced = 0
     pos = 0
     result_objs: dict[int, Any] = {}
+    recreated_nodes: list[Any] = []
 
     def rec(n: Any) -> None:
         nonlocal pos, recreated, forced
@@ -259,6 +264,7 @@ def check_tree(data: dict, lab: Labels) -> None:
             if k in orig_by_obj:
                 require(n is not orig_by_obj[k], "detached-original-returned", s["path"])
             recreated += 1
+            recreated_nodes.append(n)
             if "_" in s["id"]:
                 forced += 1
             require(ASTNode.get_any(n.id) is n, "recreated-node-not-registered", f"{s['path']}: {n.id}")
@@ -282,11 +288,12 @@ def check_tree(data: dict, lab: Labels) -> None:
         if r0 is not None:
             require(res == r0 and r0 == res, "result-not-equal-original", "")
     if opt == "index" and not data["reload_sources"]:
-        for n in T.live_nodes(res):
+        for n in recreated_nodes:
             o = n.origin
             for m in (o.origins if isinstance(o, O.MultiOrigin) else [o]):
                 if not isinstance(m.source, (O.NoSource, O.SourceSet)):
-                    require(any(m.source is s for s in sources), "index-source-not-same-object", str(m.source))
+                    require(any(m.source is s for s in Source.list_registered_sources()),
+                            "index-source-not-registered-object", str(m.source))
     lab.tag_if(recreated > 0, "recreated")
     lab.tag_if(forced > 0 and data["outside"] and data["drop_outside"], "forced-id")
     lab.nontrivial = recreated > 0 and (suffixed or any(p["origin"][0] != "no" for p in snap))
@@ -298,8 +305,12 @@ def _compare_dumps(snap: list, got: list, where: str) -> None:
     ident: dict[int, int] = {}
     for s, g in zip(snap, got):
         for key, clause in (("path", "shape"), ("cls", "class"), ("id", "id"), ("cid", "content_id"),
-                            ("props", "property-values"), ("origin", "origin")):
+                            ("props", "property-values"), ("origin", "origin"), ("origin_fqn", "origin-fqn"),
+                            ("origin_source", "origin-source")):
             require(s[key] == g[key], clause, f"{where} at {s['path']}: {s[key]!r} -> {g[key]!r}")
+        if where == "same-process":
+            require(s["clsobj"] == g["clsobj"], "class-object", f"{where} at {s['path']}: an instance of another class "
+                    f"object named {g['cls']}")
         require(ident.setdefault(s["obj"], g["obj"]) == g["obj"], "shared-position-not-shared", f"{where} {s['path']}")
         require(g["registered"], "result-node-not-registered", f"{where} at {s['path']}: {g['id']}")
     require(len(set(ident.values())) == len(ident), "distinct-objects-merged", where)
@@ -322,6 +333,7 @@ def st_case(ctx: Ctx):
             "drop_outside": st.sampled_from([True, True, False]),
             "fresh": st.sampled_from([False] * 5 + [True]),
             "reload_sources": st.booleans(),
+            "fresh_sources": st.booleans(),
         }
     )
 
